@@ -110,6 +110,9 @@ type Input struct {
 	ExactIdentity    bool     `json:"exactIdentity"`
 	ByTag            bool     `json:"byTag"`
 	History          History  `json:"history"`
+	Tamper           string   `json:"tamper"`
+	EnvelopeLastByte *int     `json:"envelopeLastByte"`
+	TrailingNewline  bool     `json:"trailingNewline"`
 }
 
 // History is what happened before on the shared signer object this round trip uses.
@@ -241,6 +244,7 @@ type signPlugin struct {
 	w        *world
 	current  string // abstract key spec name currently behind the key id
 	envelope bool
+	tamper   string // envelope plugin: what it does to the payload it is given (set per call)
 }
 
 const keyVersionConfig = "c07.keyVersion"
@@ -336,7 +340,7 @@ func (p *signPlugin) GenerateEnvelope(ctx context.Context, req *pluginfw.Generat
 		return nil, err
 	}
 	sr := &signature.SignRequest{
-		Payload:       signature.Payload{ContentType: req.PayloadType, Content: req.Payload},
+		Payload:       signature.Payload{ContentType: req.PayloadType, Content: tamperPayload(p.tamper, req.Payload)},
 		Signer:        ls,
 		SigningTime:   time.Now(),
 		SigningScheme: signature.SigningSchemeX509,
@@ -350,6 +354,122 @@ func (p *signPlugin) GenerateEnvelope(ctx context.Context, req *pluginfw.Generat
 		return nil, err
 	}
 	return &pluginfw.GenerateEnvelopeResponse{SignatureEnvelope: sig, SignatureEnvelopeType: req.SignatureEnvelopeType}, nil
+}
+
+const (
+	pluginAddedKey   = "c07.plugin.added"
+	pluginAddedValue = "x"
+)
+
+func otherThan(v, a, b string) string {
+	if v == a {
+		return b
+	}
+	return a
+}
+
+// tamperPayload is what an envelope plugin makes of the payload it is given (model: tamperPayload).
+func tamperPayload(t string, payload []byte) []byte {
+	if t == "faithful" || t == "" {
+		return payload
+	}
+	var top map[string]json.RawMessage
+	if err := json.Unmarshal(payload, &top); err != nil {
+		panic(fmt.Sprintf("c07: plugin got a payload that is not JSON: %v", err))
+	}
+	var ta map[string]json.RawMessage
+	if err := json.Unmarshal(top["targetArtifact"], &ta); err != nil {
+		panic(fmt.Sprintf("c07: plugin got a payload without targetArtifact: %v", err))
+	}
+	var ann map[string]string
+	if raw, ok := ta["annotations"]; ok {
+		if err := json.Unmarshal(raw, &ann); err != nil {
+			panic(err)
+		}
+	}
+	keys := make([]string, 0, len(ann))
+	for k := range ann {
+		keys = append(keys, k)
+	}
+	sort.Strings(keys)
+	raw := func(v any) json.RawMessage {
+		b, err := json.Marshal(v)
+		if err != nil {
+			panic(err)
+		}
+		return b
+	}
+	switch t {
+	case "reserialised":
+		// the same JSON value with members in reverse order and generous white space
+		return []byte("{\n\t \"targetArtifact\" :\r\n  " + reorder(ta, 2) + "\n }\n")
+	case "dropAnnotation":
+		if len(keys) == 0 {
+			return payload
+		}
+		delete(ann, keys[0])
+		if len(ann) == 0 {
+			delete(ta, "annotations")
+		} else {
+			ta["annotations"] = raw(ann)
+		}
+	case "addAnnotation":
+		if ann == nil {
+			ann = map[string]string{}
+		}
+		ann[pluginAddedKey] = pluginAddedValue
+		ta["annotations"] = raw(ann)
+	case "changeAnnotation":
+		if len(keys) == 0 {
+			return payload
+		}
+		ann[keys[0]] = otherThan(ann[keys[0]], "c07-changed", "c07-changed-2")
+		ta["annotations"] = raw(ann)
+	case "changeMediaType":
+		var mt string
+		json.Unmarshal(ta["mediaType"], &mt)
+		ta["mediaType"] = raw(otherThan(mt, "application/x-c07-changed", "application/x-c07-changed-2"))
+	case "changeSize":
+		var n int64
+		json.Unmarshal(ta["size"], &n)
+		ta["size"] = raw(n + 1)
+	case "addUnknownField":
+		ta["c07Unknown"] = raw(true)
+	case "probe:addArtifactType":
+		// not generated (see corpus/C07/README.md, observations): a member areUnknownAttributesAdded tolerates
+		ta["artifactType"] = raw("application/x-c07-plugin")
+	default:
+		panic("c07: tamper " + t)
+	}
+	top["targetArtifact"] = raw(ta)
+	return raw(top)
+}
+
+// reorder renders a JSON object with its members in reverse key order, nested objects too.
+func reorder(obj map[string]json.RawMessage, depth int) string {
+	keys := make([]string, 0, len(obj))
+	for k := range obj {
+		keys = append(keys, k)
+	}
+	sort.Sort(sort.Reverse(sort.StringSlice(keys)))
+	var b bytes.Buffer
+	b.WriteString("{ ")
+	for n, k := range keys {
+		if n > 0 {
+			b.WriteString(" ,\n" + string(bytes.Repeat([]byte(" "), depth)))
+		}
+		kb, _ := json.Marshal(k)
+		b.Write(kb)
+		b.WriteString("\t: ")
+		var nested map[string]json.RawMessage
+		if len(obj[k]) > 0 && obj[k][0] == '{' && json.Unmarshal(obj[k], &nested) == nil {
+			b.WriteString(reorder(nested, depth+2))
+		} else {
+			b.Write(obj[k])
+		}
+	}
+	b.WriteString(" }")
+	return b.String()
 }
 
 func (p *signPlugin) VerifySignature(ctx context.Context, req *pluginfw.VerifySignatureRequest) (*pluginfw.VerifySignatureResponse, error) {
@@ -434,6 +554,8 @@ func (rd Reader) reader(content []byte) io.Reader {
 }
 
 const copyChunk = 32 * 1024 // io.Copy's buffer; scripted reads never exceed it
+
+var tampers = []string{"faithful", "reserialised", "dropAnnotation", "addAnnotation", "changeAnnotation", "changeMediaType", "changeSize", "addUnknownField"}
 
 var readerKinds = []string{"direct", "chunks", "oneByte", "dataEOF", "dataEOFsmall", "shortReads", "zeroReads", "mixed"}
 
@@ -736,6 +858,7 @@ func (w *world) sign(in Input, content []byte) *signedCase {
 	s := obj.s
 	sso := notation.SignerSignOptions{SignatureMediaType: formatOf[in.Format], ExpiryDuration: time.Duration(in.DurationNs), SigningAgent: in.Agent}
 	if obj.plugin != nil {
+		obj.plugin.tamper = in.Tamper
 		switch via {
 		case "rotated":
 			// the key behind the key id has been switched since the previous call
@@ -752,10 +875,23 @@ func (w *world) sign(in Input, content []byte) *signedCase {
 	var sig []byte
 	sigMT := formatOf[in.Format]
 	if in.Kind == "blob" {
-		b, _, err := notation.SignBlob(ctx, s, in.SignReader.reader(content), notation.SignBlobOptions{
-			SignerSignOptions: sso, ContentMediaType: in.ContentMediaType, UserMetadata: kvMap(in.Metadata)})
-		if err != nil {
-			return sc
+		var b []byte
+		for try := 0; ; try++ {
+			var err error
+			b, _, err = notation.SignBlob(ctx, s, in.SignReader.reader(content), notation.SignBlobOptions{
+				SignerSignOptions: sso, ContentMediaType: in.ContentMediaType, UserMetadata: kvMap(in.Metadata)})
+			if err != nil {
+				return sc
+			}
+			// sign again (same object, fresh randomness) until the envelope ends in the wanted byte
+			if in.EnvelopeLastByte == nil || int(b[len(b)-1]) == *in.EnvelopeLastByte {
+				break
+			}
+			if try > 20000 {
+				panic(fmt.Sprintf("c07: no envelope ending in byte %#x after %d signatures", *in.EnvelopeLastByte, try))
+			}
+			obj.hist.Position++
+			sc.in.History.Position++
 		}
 		sig = b
 		sc.sig = b
@@ -835,7 +971,12 @@ func (w *world) verify(sc *signedCase) Obs {
 	var returned ocispec.Descriptor
 	if in.Kind == "blob" {
 		stated := map[string]string{"same": in.ContentMediaType, "unstated": "", "other": "application/x-c07-other"}[in.VerifyMediaType]
-		d, vo, err := notation.VerifyBlob(ctx, v, in.VerifyReader.reader(sc.content), sc.sig, notation.VerifyBlobOptions{
+		sig := sc.sig
+		if in.TrailingNewline {
+			// a detached JWS signature file with a line break at its end
+			sig = append(append([]byte{}, sig...), '\n')
+		}
+		d, vo, err := notation.VerifyBlob(ctx, v, in.VerifyReader.reader(sc.content), sig, notation.VerifyBlobOptions{
 			BlobVerifierVerifyOptions: notation.BlobVerifierVerifyOptions{SignatureMediaType: formatOf[in.Format], UserMetadata: wantedMetadata(in)},
 			ContentMediaType:          stated})
 		if err != nil {
@@ -1012,6 +1153,16 @@ func (w *world) genCase(c *common.Ctx) (Input, []byte) {
 	in.Format = pick(c, []string{"jws", "cose"})
 	in.Signer = pick(c, signerKinds)
 	setKeyVia(&in, pick(c, []string{"rotated", "pluginConfig"}))
+	in.Tamper = "faithful"
+	switch r := c.Rand.Float64(); {
+	case in.Signer != "pluginEnvelope" && r < 0.8:
+		// only an envelope plugin sees the payload; for the others the field must not matter
+	case r < 0.35:
+	case r < 0.5:
+		in.Tamper = "reserialised"
+	default:
+		in.Tamper = pick(c, tampers[2:])
+	}
 	in.NowFracNs = c.Rand.Int63n(1_000_000_000)
 	in.Agent = pick(c, agents)
 	in.ExactIdentity = chance(c, 0.4)
@@ -1028,6 +1179,7 @@ func (w *world) genCase(c *common.Ctx) (Input, []byte) {
 		if chance(c, 0.08) {
 			in.ContentMediaType = pick(c, badBlobMediaTypes)
 		}
+		in.TrailingNewline = in.Format == "jws" && chance(c, 0.2)
 		if in.ContentMediaType != "" {
 			_, _, err := mime.ParseMediaType(in.ContentMediaType)
 			in.MediaTypeValid = err == nil
@@ -1133,6 +1285,15 @@ func count(c *common.Ctx, in Input, o Obs) {
 	if in.LagSec > 0 {
 		c.Count("verifiedAfterExpiry")
 	}
+	if in.Signer == "pluginEnvelope" {
+		c.Count("envelopePluginTamper=" + in.Tamper)
+	}
+	if in.EnvelopeLastByte != nil && o.Signed {
+		c.Count(fmt.Sprintf("coseEnvelopeEndsIn=%#02x", *in.EnvelopeLastByte))
+	}
+	if in.TrailingNewline {
+		c.Count("jwsEnvelopeWithTrailingNewline")
+	}
 	c.Count("keyVia=" + in.History.KeyVia)
 	if in.History.PrevKeySpec != nil && in.History.KeyVia != "fixed" {
 		c.Count(fmt.Sprintf("sharedPluginSigner:keySpecChanged=%v", *in.History.PrevKeySpec != in.KeySpec))
@@ -1165,6 +1326,7 @@ func Run(c *common.Ctx) error {
 			in.Metadata = []KV{}
 		}
 		in.VerifyMediaType, in.VerifyMetadata = "same", pick(c, []string{"nothing", "all"})
+		in.Tamper = pick(c, []string{"faithful", "reserialised"})
 		secs := int64(1 + c.Rand.Intn(2))
 		in.DurationNs = secs * int64(time.Second)
 		in.LagSec = secs + int64(c.Rand.Intn(2))
@@ -1197,6 +1359,8 @@ func Run(c *common.Ctx) error {
 					in.VerifyMediaType, in.VerifyMetadata = pick(c, []string{"same", "unstated"}), pick(c, []string{"nothing", "all"})
 					in.DurationNs = int64(pick(c, legalDurations))
 					setKeyVia(&in, map[string]string{"jws": "rotated", "cose": "pluginConfig"}[f])
+					in.Tamper = pick(c, []string{"faithful", "reserialised", "addAnnotation"})
+					in.TrailingNewline = kind == "blob" && f == "jws" && chance(c, 0.5)
 					emit(w.roundTrip(in, content))
 				}
 			}
@@ -1214,6 +1378,7 @@ func Run(c *common.Ctx) error {
 			}
 			in.Signer = s
 			setKeyVia(&in, pick(c, []string{"rotated", "pluginConfig"}))
+			in.Tamper, in.TrailingNewline = "faithful", false
 			in.Metadata = genKV(c, metadataKeys[:3], c.Rand.Intn(2))
 			in.VerifyMediaType, in.VerifyMetadata = "same", "all"
 			in.DurationNs = int64(pick(c, legalDurations))
@@ -1231,6 +1396,74 @@ func Run(c *common.Ctx) error {
 				}
 				emit(w.roundTrip(in, content))
 			}
+		}
+	}
+
+	// (2c) envelope-generator plugins that are not faithful: every way of re-making the payload x
+	// {oci, blob} x {jws, cose}, on descriptors that carry user metadata (and, for oci, annotations)
+	for _, t := range tampers {
+		for _, kind := range []string{"oci", "blob"} {
+			for _, f := range []string{"jws", "cose"} {
+				in, content := w.genCase(c)
+				for in.Kind != kind {
+					in, content = w.genCase(c)
+				}
+				in.Signer, in.Format, in.Tamper = "pluginEnvelope", f, t
+				setKeyVia(&in, pick(c, []string{"rotated", "pluginConfig"}))
+				in.Metadata = genKV(c, metadataKeys[:7], 1+c.Rand.Intn(3))
+				if kind == "oci" {
+					in.Desc.Annotations = genKV(c, []string{"org.opencontainers.image.created", "vendor", "a.b/c"}, c.Rand.Intn(3))
+				} else {
+					in.ContentMediaType, in.MediaTypeValid = pick(c, blobMediaTypes), true
+				}
+				in.TrailingNewline = false
+				in.VerifyMediaType, in.VerifyMetadata = "same", pick(c, []string{"nothing", "all"})
+				in.DurationNs = int64(pick(c, legalDurations))
+				emit(w.roundTrip(in, content))
+			}
+		}
+	}
+
+	// (2d) envelopes whose last byte is a white-space byte: the signing API is asked again and again
+	// (same signer object, same arguments; signatures are randomised) until the COSE envelope ends
+	// in 0x20 / 0x09 / 0x0a / 0x0d / 0x0b / 0x0c; plus JWS envelopes followed by a line break
+	wsSigners := []struct{ signer, key string }{{"localKey", "ec256"}, {"pluginSignature", "ec384"}, {"pluginEnvelope", "ec256"}, {"localFiles", "ec521"}}
+	rounds := 1
+	if c.Thorough() {
+		rounds = 4
+	}
+	for round := 0; round < rounds; round++ {
+		for n, b := range []int{0x20, 0x09, 0x0a, 0x0d, 0x0b, 0x0c} {
+			in, content := w.genCase(c)
+			for in.Kind != "blob" || in.Blob.Size > 70000 {
+				in, content = w.genCase(c)
+			}
+			ws := wsSigners[(n+round)%len(wsSigners)]
+			in.Signer, in.KeySpec, in.Format = ws.signer, ws.key, "cose"
+			setKeyVia(&in, pick(c, []string{"rotated", "pluginConfig"}))
+			in.Tamper, in.TrailingNewline = pick(c, []string{"faithful", "reserialised"}), false
+			in.Metadata = genKV(c, metadataKeys[:7], c.Rand.Intn(3))
+			in.ContentMediaType, in.MediaTypeValid = pick(c, blobMediaTypes), true
+			in.SignReader = genReader(c, len(content), "direct") // signed thousands of times
+			in.VerifyMediaType, in.VerifyMetadata = pick(c, []string{"same", "unstated"}), pick(c, []string{"nothing", "all"})
+			in.DurationNs = int64(pick(c, []time.Duration{0, time.Hour, 24 * time.Hour}))
+			last := b
+			in.EnvelopeLastByte = &last
+			emit(w.roundTrip(in, content))
+		}
+		for _, s := range signerKinds {
+			in, content := w.genCase(c)
+			for in.Kind != "blob" {
+				in, content = w.genCase(c)
+			}
+			in.Signer, in.Format, in.TrailingNewline = s, "jws", true
+			setKeyVia(&in, pick(c, []string{"rotated", "pluginConfig"}))
+			in.Tamper = pick(c, []string{"faithful", "reserialised"})
+			in.Metadata = genKV(c, metadataKeys[:7], c.Rand.Intn(3))
+			in.ContentMediaType, in.MediaTypeValid = pick(c, blobMediaTypes), true
+			in.VerifyMediaType, in.VerifyMetadata = "same", "all"
+			in.DurationNs = int64(pick(c, legalDurations))
+			emit(w.roundTrip(in, content))
 		}
 	}
 
@@ -1254,6 +1487,9 @@ func Run(c *common.Ctx) error {
 		"full matrix 6 key specs x 2 formats x 4 signers x {oci, blob} plus random cases (legal and illegal metadata / durations / media types, " +
 		"blob sizes 0 B..4 MiB, verification stating the same / no / another media type and none / all / unsigned metadata) plus verification after a short expiry; " +
 		"lagSec is the planned class of the verification delay (0 = before the expiry, ensured by clock alignment and re-tried otherwise). " +
+		"Envelope plugins: the in-process envelope-generator plugin signs the payload faithfully, re-serialised (reverse member order, other white space), or unfaithfully (annotation dropped / appended / changed, " +
+		"media type or size changed, unknown member added) - each way x {oci, blob} x {jws, cose} on descriptors with user metadata, plus random cases. " +
+		"Envelope bytes: SignBlob is repeated on the same signer until the COSE envelope ends in each of 0x20 0x09 0x0a 0x0d 0x0b 0x0c; JWS envelopes are also verified with a line break appended. " +
 		"Readers: every blob is handed to SignBlob and, independently, to VerifyBlob through a reader with scripted behaviour (the in-memory reader itself, full 32 KiB chunks, one byte at a time, " +
 		"the last bytes together with io.EOF, short reads of odd sizes, zero-length reads with a nil error at the start / between / before the end, mixtures), blob sizes include 32 KiB and 64 KiB +/- 1 and multiples. " +
 		"History: signer and verifier objects are SHARED by the whole run - one GenericSigner per key and constructor, ONE PluginSigner per plugin kind whose key (and key spec) " +
